@@ -509,10 +509,12 @@ func init() {
 			r.Require("follow_up_queries_checked", 50)
 			r.Require("deregistered_queries_checked", 100)
 			r.Require("registered_queries_checked", 100)
+			r.Require("queries_whose_client_went_away", 100)
 			return []core.Workload{
 				{Name: "attribute_queries", N: c.Pick(900, 9000), Fn: c12Case},
 				{Name: "registration_changes", N: c.Pick(150, 1500), Fn: c12Registration},
 				{Name: "overlapping_queries", N: c.Pick(60, 600), Fn: c12Overlap},
+				{Name: "client_gone", N: c.Pick(80, 800), Fn: c12ClientGone},
 			}
 		},
 		After: func(c *Ctx) { verify.Py.Close() },
@@ -592,5 +594,81 @@ func c12Overlap(r *core.Run, idx int, rng *rand.Rand) {
 				r.Violate(core.Violation{Clause: "answer_to_another_query", Class: class, Reason: fmt.Sprintf("InResponseTo %q (query %q), subject %q (queried %q), audience %v (requester %q)", d.Msg.InResponseTo, x.q.ID, d.Msg.NameID, x.own.Username, d.Msg.Audiences, x.sp.EntityID), Workload: wl, Index: idx, Case: desc, Observed: x.call.Describe()})
 			}
 		}
+	}
+}
+
+// c12ClientGone: the requester goes away while its query is being served - the request's context is cancelled at the
+// n-th storage call, a storage that honours the context fails that call and every later one, the connection can
+// still be written to (a deadline set by a middleware). Whatever is sent then, user data only ever leaves inside a
+// signed assertion of a Success answer that is about this query.
+func c12ClientGone(r *core.Run, idx int, rng *rand.Rand) {
+	const wl = "client_gone"
+	o := env.Opts{SigAlg: []string{spsim.AlgRSASHA1, spsim.AlgRSASHA256}[rng.Intn(2)]}
+	e := env.Static(o)
+	e.Cancellable = true
+	d := stdSP(0)
+	mustRegister(e.W, d, "appA")
+	canary := fmt.Sprintf("U_MK%dg", idx)
+	u := randUser(rng, canary, false)
+	e.W.AddUser(u)
+	q := conformantQuery(rng, d, u.Username)
+	q.ID = "MKg" + randHex(rng, 6)
+	body := q.XML(rng)
+	if rng.Intn(3) == 0 {
+		sx, err := spsim.SignEnveloped(q.QueryNode().Render(q.Style.Indent), d.Cert, spsim.XMLSignOpts{Alg: spsim.AlgRSASHA256})
+		if err == nil {
+			body = q.Envelope(strings.TrimSpace(strings.TrimPrefix(sx, `<?xml version="1.0" encoding="UTF-8"?>`)))
+		}
+	}
+	send := func() *env.Call { return e.Do(env.Req{Method: "POST", Path: env.PathAttr, Body: body, CT: "text/xml"}) }
+	base := send()
+	if base.Panic != "" || !base.D.Success() {
+		r.Count("client_gone_baseline_not_answered", 1)
+		return
+	}
+	for _, p := range opSequence(base) {
+		gone := false
+		e.W.Before = func(ctx context.Context, _, op string, occ int) {
+			if op == p.Op && occ == p.Occ {
+				gone = env.CancelRequest(ctx)
+			}
+		}
+		call := send()
+		e.W.Before = nil
+		if !gone {
+			continue
+		}
+		class := fmt.Sprintf("client_gone|at=%s#%d", p.Op, p.Occ)
+		desc := map[string]any{"query_id": q.ID, "subject": u.Username, "cancelled_at": fmt.Sprintf("%s#%d", p.Op, p.Occ)}
+		r.Eval(fmt.Sprintf("%s|%d", class, idx))
+		r.Count("queries_whose_client_went_away", 1)
+		viol := func(clause, reason string) {
+			r.Violate(core.Violation{Clause: clause, Class: class, Reason: reason, Workload: wl, Index: idx, Case: desc, Observed: call.Describe()})
+		}
+		if call.Panic != "" {
+			viol("panic", call.Panic)
+			continue
+		}
+		dd := call.D
+		if !strings.Contains(dd.FullText(), canary) && !dd.Success() {
+			r.Count("client_gone_refused_without_user_data", 1)
+			continue
+		}
+		if !dd.Success() {
+			viol("user_data_in_refusal", "the reply is not a Success answer and carries data of the queried user")
+			continue
+		}
+		fails, _, oerr := verifyEmitted(dd, respCert())
+		if oerr != nil {
+			r.Inconclusive("python oracle unavailable: " + oerr.Error())
+			return
+		}
+		for _, f := range fails {
+			viol("signature/"+f.Clause, f.Reason)
+		}
+		if dd.Msg.InResponseTo != q.ID || dd.Msg.NameID != u.Username {
+			viol("answer_to_another_query", fmt.Sprintf("InResponseTo %q (query %q), subject %q (queried %q)", dd.Msg.InResponseTo, q.ID, dd.Msg.NameID, u.Username))
+		}
+		r.Count("client_gone_answered_all_the_same", 1)
 	}
 }
